@@ -337,7 +337,17 @@ func (x *Exec) enterBlock(st *State, b, from *ssa.BasicBlock) bool {
 		blocks = append(blocks, blk)
 	}
 	sort.Slice(blocks, func(i, j int) bool { return blocks[i].Index < blocks[j].Index })
-	x.collectWrites(st, f.fn, blocks, f.env, ws, 0, map[*ssa.Function]bool{})
+	ws.rootRegion = blocks
+	// values defined inside the region (the header phis were just evaluated for the entry edge)
+	// change from iteration to iteration: the analysis may only rely on values fixed before the loop
+	outside := make(map[ssa.Value]Val, len(f.env))
+	for k, v := range f.env {
+		if ins, ok := k.(ssa.Instruction); ok && ins.Block() != nil && li.body[ins.Block()] && ins.Parent() == f.fn {
+			continue
+		}
+		outside[k] = v
+	}
+	x.collectWrites(st, f.fn, blocks, outside, ws, 0, map[*ssa.Function]bool{})
 	ws.resolveCellMaps(st)
 	if ws.all {
 		x.gap(fmt.Sprintf("loop %s: everything is havoced at the loop head (%s)", lkey, ws.why))
@@ -348,6 +358,11 @@ func (x *Exec) enterBlock(st *State, b, from *ssa.BasicBlock) bool {
 			hn = append(hn, n)
 		}
 		sort.Strings(hn)
+		if os.Getenv("GVERIF_DEBUG") != "" {
+			for _, n := range hn {
+				fmt.Fprintf(os.Stderr, "  writes %s %s: total=%d exact=%d fresh=%v efresh=%v point=%d\n", lkey, n, ws.total[n], ws.exact[n], ws.fresh[n], ws.efresh[n], len(ws.point[n]))
+			}
+		}
 		for _, n := range hn {
 			if n == "$alloc" || ws.total[n] != ws.exact[n] || !(strings.HasPrefix(n, "F$") || strings.HasPrefix(n, "E$") || strings.HasPrefix(n, "P$") || strings.HasPrefix(n, "MD$") || strings.HasPrefix(n, "MV$")) {
 				x.havocHeap(st, n, ws.heaps[n])
@@ -357,9 +372,15 @@ func (x *Exec) enterBlock(st *State, b, from *ssa.BasicBlock) bool {
 			// that is fixed before the loop: all other cells keep their value (inferred frame)
 			old := x.heap(st, n, ws.heaps[n])
 			cur := old
-			if ws.fresh[n] {
+			if ws.fresh[n] || ws.efresh[n] {
+				bound := lc.allocAt
+				if ws.efresh[n] {
+					// some writes go to objects allocated since the function was entered (not
+					// necessarily inside the loop): only objects that existed on entry are framed
+					bound = x.baseEnv(st).withOld(func() Val { return mkInt(x.heap(st, "$alloc", "Int")) }).T
+				}
 				cur = x.havocHeap(st, n, ws.heaps[n])
-				st.assume(fmt.Sprintf("(forall ((r Int)) (! (=> (< r %s) (= (select %s r) (select %s r))) :pattern ((select %s r))))", lc.allocAt, cur, old, cur))
+				st.assume(fmt.Sprintf("(forall ((r Int)) (! (=> (< r %s) (= (select %s r) (select %s r))) :pattern ((select %s r))))", bound, cur, old, cur))
 			}
 			elemSort := strings.TrimSuffix(strings.TrimPrefix(ws.heaps[n], "(Array Int "), ")")
 			for _, ref := range ws.point[n] {
@@ -531,6 +552,30 @@ func (x *Exec) autoInvariants(st *State, b *ssa.BasicBlock, lc *loopCtx) []strin
 		n := x.operand(st, bound).T
 		out = append(out, fmt.Sprintf("(and (<= (- 1) %s) (or (= %s (- 1)) (< %s %s)))", p, p, p, n))
 	}
+	// a variable that starts nil and only ever receives objects allocated inside the loop (append
+	// chains, fresh results) is nil or younger than the loop: it cannot alias anything older
+	if li := x.info(f.fn).loops[b]; li != nil {
+		var blocks []*ssa.BasicBlock
+		for blk := range li.body {
+			blocks = append(blocks, blk)
+		}
+		for _, ins := range b.Instrs {
+			ph, ok := ins.(*ssa.Phi)
+			if !ok {
+				break
+			}
+			v, have := f.env[ph]
+			if !have || v.T == "" || !x.regionFresh(ph, blocks, nil) {
+				continue
+			}
+			switch ph.Type().Underlying().(type) {
+			case *types.Slice:
+				out = append(out, fmt.Sprintf("(or (= (s_arr %s) 0) (>= (s_arr %s) %s))", v.T, v.T, lc.allocAt))
+			case *types.Map, *types.Pointer:
+				out = append(out, fmt.Sprintf("(or (= %s 0) (>= %s %s))", v.T, v.T, lc.allocAt))
+			}
+		}
+	}
 	return out
 }
 
@@ -607,8 +652,12 @@ type writeSet struct {
 	point map[string][]string // pointwise writes: heap -> reference terms (defined before the loop)
 	fresh map[string]bool     // heap has writes to fresh objects
 	inFresh bool              // analysing a store whose target is a fresh object
+	rootRegion []*ssa.BasicBlock // the blocks of the loop whose write set is computed
+	efresh  map[string]bool   // heap has writes to objects allocated since the function was entered (weaker frame)
+	inEFresh bool
 	why     string
 	cellMaps []cellMapWrite   // map updates through a variable (cell); resolved after the analysis
+	efreshVals map[ssa.Value]bool // parameters bound to objects allocated since the function was entered
 	freshVals map[ssa.Value]bool // parameters of analysed callees that are bound to objects allocated in the region
 }
 
@@ -633,7 +682,7 @@ func (ws *writeSet) resolveCellMaps(st *State) {
 }
 
 func newWriteSet() *writeSet {
-	return &writeSet{freshVals: map[ssa.Value]bool{}, heaps: map[string]string{}, cells: map[int]bool{}, iters: map[int]bool{}, total: map[string]int{}, exact: map[string]int{}, point: map[string][]string{}, fresh: map[string]bool{}}
+	return &writeSet{efreshVals: map[ssa.Value]bool{}, freshVals: map[ssa.Value]bool{}, heaps: map[string]string{}, cells: map[int]bool{}, iters: map[int]bool{}, total: map[string]int{}, exact: map[string]int{}, point: map[string][]string{}, fresh: map[string]bool{}, efresh: map[string]bool{}}
 }
 
 // w records a write to a heap component.
@@ -643,6 +692,9 @@ func (ws *writeSet) w(name, sort string) {
 	if ws.inFresh {
 		ws.exact[name]++
 		ws.fresh[name] = true
+	} else if ws.inEFresh {
+		ws.exact[name]++
+		ws.efresh[name] = true
 	}
 }
 
@@ -660,6 +712,14 @@ func (x *Exec) addLocWrites(l *Loc, ws *writeSet) {
 	case LGlobal:
 		ws.w(l.Global, x.ctx.sortOf(l.Elem))
 	case LRef:
+		if stt, ok := l.Elem.Underlying().(*types.Struct); ok && l.Ref != "" {
+			// a whole-struct store through a pointer that is fixed before the region: pointwise
+			for i := 0; i < stt.NumFields(); i++ {
+				hn, hs := x.fieldHeap(l.Elem, i)
+				ws.wPoint(hn, hs, l.Ref)
+			}
+			return
+		}
 		x.addTypeWrites(l.Elem, ws)
 	case LField:
 		root := l
@@ -907,7 +967,15 @@ func (x *Exec) callWrites(st *State, caller *ssa.Function, region []*ssa.BasicBl
 		case "append":
 			sl := c.Args[0].Type().Underlying().(*types.Slice)
 			hn, hs := x.elemHeap(sl.Elem())
-			ws.w(hn, hs)
+			if x.regionFresh(c.Args[0], region, ws) {
+				// the slice is nil or lives in an array allocated inside the region: whether the
+				// element fits or a new array is allocated, only region-fresh arrays are written
+				ws.inFresh = true
+				ws.w(hn, hs)
+				ws.inFresh = false
+			} else {
+				ws.w(hn, hs)
+			}
 			ws.w("$alloc", "Int")
 		case "copy":
 			sl := c.Args[0].Type().Underlying().(*types.Slice)
@@ -1020,7 +1088,7 @@ func (x *Exec) callWrites(st *State, caller *ssa.Function, region []*ssa.BasicBl
 			return
 		}
 		ws.w("$alloc", "Int")
-		x.modifiesHeaps(con, callee, c, ws, env)
+		x.modifiesHeaps(con, callee, c, ws, env, region)
 		return
 	}
 	if rule != nil && rule.NoEffect {
@@ -1030,11 +1098,21 @@ func (x *Exec) callWrites(st *State, caller *ssa.Function, region []*ssa.BasicBl
 		seen[callee] = true
 		// values flowing into the callee that are known here (closures, cell pointers, fixed refs)
 		cenv := map[ssa.Value]Val{}
+		for _, p := range callee.Params {
+			// the freshness of a parameter is a fact of THIS call site
+			delete(ws.freshVals, p)
+			delete(ws.efreshVals, p)
+		}
 		for i, p := range callee.Params {
 			if i < len(c.Args) && x.rootIsLocalAlloc(c.Args[i], region, ws) {
 				if _, isAddr := c.Args[i].(*ssa.Alloc); isAddr || ws.freshVals[c.Args[i]] {
 					ws.freshVals[p] = true
 				}
+			}
+			if i < len(c.Args) && x.regionFresh(c.Args[i], region, ws) {
+				ws.freshVals[p] = true
+			} else if i < len(c.Args) && (ws.efreshVals[c.Args[i]] || x.fnFresh(c.Args[i], map[ssa.Value]bool{})) {
+				ws.efreshVals[p] = true
 			}
 		}
 		if env != nil {
@@ -1051,7 +1129,7 @@ func (x *Exec) callWrites(st *State, caller *ssa.Function, region []*ssa.BasicBl
 								bs = append(bs, bv)
 							} else if al, isAl := b.(*ssa.Alloc); isAl && !isStruct(al.Type().(*types.Pointer).Elem()) && !isArray(al.Type().(*types.Pointer).Elem()) {
 								// a variable declared inside the analysed region: a fresh cell per iteration
-								bs = append(bs, Val{Ty: al.Type(), Loc: &Loc{Kind: LCell, Cell: -1, Elem: al.Type().(*types.Pointer).Elem()}})
+								bs = append(bs, Val{Ty: al.Type(), Loc: &Loc{Kind: LCell, Cell: -1, Elem: al.Type().(*types.Pointer).Elem(), Src: al}})
 							} else {
 								bs = append(bs, Val{})
 								complete = false
@@ -1069,6 +1147,10 @@ func (x *Exec) callWrites(st *State, caller *ssa.Function, region []*ssa.BasicBl
 			}
 		}
 		x.collectWrites(st, callee, callee.Blocks, cenv, ws, depth+1, seen)
+		for _, p := range callee.Params {
+			delete(ws.freshVals, p)
+			delete(ws.efreshVals, p)
+		}
 		delete(seen, callee)
 		return
 	}
@@ -1081,9 +1163,9 @@ func (x *Exec) callWrites(st *State, caller *ssa.Function, region []*ssa.BasicBl
 }
 
 // modifiesHeaps adds (conservatively, whole heaps) what a contract's modifies clause covers.
-func (x *Exec) modifiesHeaps(con *Contract, callee *ssa.Function, c *ssa.CallCommon, ws *writeSet, env map[ssa.Value]Val) {
+func (x *Exec) modifiesHeaps(con *Contract, callee *ssa.Function, c *ssa.CallCommon, ws *writeSet, env map[ssa.Value]Val, region []*ssa.BasicBlock) {
 	for _, item := range con.Modifies {
-		if env != nil && c != nil {
+		if c != nil {
 			// `map(p)` / `elems(p)` of a parameter whose argument is fixed before the analysed
 			// region: only that one object is written (pointwise havoc)
 			it := strings.TrimSpace(item)
@@ -1092,7 +1174,52 @@ func (x *Exec) modifiesHeaps(con *Contract, callee *ssa.Function, c *ssa.CallCom
 			if isMap || isElems {
 				name := strings.TrimSpace(it[strings.Index(it, "(")+1 : len(it)-1])
 				if arg := argForName(c, name); arg != nil {
-					if av, ok := env[arg]; ok && av.T != "" {
+					if os.Getenv("GVERIF_DEBUG") == "2" {
+						ev, inEnv := Val{}, false
+						if ld, ok := arg.(*ssa.UnOp); ok && env != nil {
+							ev, inEnv = env[ld.X]
+						}
+						fmt.Fprintf(os.Stderr, "  modifies %s of %s: arg %T %v inEnv=%v loc=%+v\n", it, con.Key, arg, arg, inEnv, ev.Loc)
+					}
+					if x.regionFresh(arg, region, ws) {
+						// the object is allocated inside the analysed region: a write to a fresh object
+						ws.inFresh = true
+						if mt, ok := arg.Type().Underlying().(*types.Map); ok && isMap {
+							dn, ds, vn, vs := x.mapHeaps(mt)
+							ws.w(dn, ds)
+							ws.w(vn, vs)
+							ws.inFresh = false
+							continue
+						}
+						if sl, ok := arg.Type().Underlying().(*types.Slice); ok && isElems {
+							hn, hs := x.elemHeap(sl.Elem())
+							ws.w(hn, hs)
+							ws.inFresh = false
+							continue
+						}
+						ws.inFresh = false
+					}
+					if ld, ok := arg.(*ssa.UnOp); ok && ld.Op == token.MUL && env != nil && isMap {
+						if cv, ok := env[ld.X]; ok && cv.Loc != nil && cv.Loc.Kind == LCell {
+							mt, isM := arg.Type().Underlying().(*types.Map)
+							if isM && cv.Loc.Cell > 0 {
+								// the content of a variable (cell): pointwise if the region never assigns it
+								dn, ds, vn, vs := x.mapHeaps(mt)
+								ws.cellMaps = append(ws.cellMaps, cellMapWrite{cv.Loc.Cell, dn, ds, vn, vs})
+								continue
+							}
+							if al, isAl := cv.Loc.Src.(*ssa.Alloc); isM && cv.Loc.Cell == -1 && isAl && x.cellHoldsOnly(al, func(v ssa.Value) bool { return x.regionFresh(v, region, ws) || x.inBlocksFresh(v, al) }) {
+								// a variable declared inside the region that only ever holds objects allocated there
+								dn, ds, vn, vs := x.mapHeaps(mt)
+								ws.inFresh = true
+								ws.w(dn, ds)
+								ws.w(vn, vs)
+								ws.inFresh = false
+								continue
+							}
+						}
+					}
+					if av, ok := env[arg]; env != nil && ok && av.T != "" {
 						if mt, ok := arg.Type().Underlying().(*types.Map); ok && isMap {
 							dn, ds, vn, vs := x.mapHeaps(mt)
 							ws.wPoint(dn, ds, av.T)
@@ -1103,6 +1230,36 @@ func (x *Exec) modifiesHeaps(con *Contract, callee *ssa.Function, c *ssa.CallCom
 							hn, hs := x.elemHeap(sl.Elem())
 							ws.wPoint(hn, hs, "(s_arr "+av.T+")")
 							continue
+						}
+					}
+					if _, ok := arg.(*ssa.Phi); ok && env != nil && isMap {
+						// a variable that holds an object fixed before the region on some edges and
+						// objects allocated inside the region on the others
+						refs, okAll := x.phiTargets(arg, env, region, ws, map[ssa.Value]bool{})
+						if mt, isM := arg.Type().Underlying().(*types.Map); isM && okAll {
+							dn, ds, vn, vs := x.mapHeaps(mt)
+							for _, r := range refs {
+								ws.wPoint(dn, ds, r)
+								ws.wPoint(vn, vs, r)
+							}
+							ws.inFresh = true
+							ws.w(dn, ds)
+							ws.w(vn, vs)
+							ws.inFresh = false
+							continue
+						}
+					}
+					if (ws.efreshVals[arg] || x.fnFresh(arg, map[ssa.Value]bool{})) && !ws.freshVals[arg] {
+						if _, isParam := arg.(*ssa.Parameter); !isParam || ws.efreshVals[arg] {
+							ws.inEFresh = true
+							if mt, ok := arg.Type().Underlying().(*types.Map); ok && isMap {
+								dn, ds, vn, vs := x.mapHeaps(mt)
+								ws.w(dn, ds)
+								ws.w(vn, vs)
+								ws.inEFresh = false
+								continue
+							}
+							ws.inEFresh = false
 						}
 					}
 				}
@@ -1119,6 +1276,229 @@ func (x *Exec) modifiesHeaps(con *Contract, callee *ssa.Function, c *ssa.CallCom
 		}
 		ws.inFresh = false
 	}
+}
+
+// freshResult: the contract promises (unconditionally) that the single / first result is nil or
+// allocated during the call: a top-level conjunct `fresh(result)` (or result0), possibly guarded
+// by `result == nil ||`.
+func freshResult(con *Contract) bool {
+	for _, c := range con.Ensures {
+		for _, part := range strings.Split(c.Src, "&&") {
+			t := strings.Join(strings.Fields(part), " ")
+			if strings.HasPrefix(t, "(") && strings.HasSuffix(t, "))") {
+				t = t[1 : len(t)-1]
+			}
+			switch t {
+			case "fresh(result)", "fresh(result0)", "result == nil || fresh(result)", "result0 == nil || fresh(result0)":
+				// only when the clause is a plain conjunction (no implication / disjunction around it)
+				if !strings.Contains(c.Src, "==>") && !strings.Contains(strings.Replace(c.Src, t, "", 1), "||") {
+					return true
+				}
+			}
+		}
+	}
+	return false
+}
+
+// regionFresh: the value is an object allocated inside the analysed blocks (an allocation
+// instruction, a call whose contract promises a fresh result, or a parameter bound to one).
+func (x *Exec) regionFresh(v ssa.Value, blocks []*ssa.BasicBlock, ws *writeSet) bool {
+	return x.regionFresh1(v, blocks, ws, map[ssa.Value]bool{})
+}
+
+func (x *Exec) regionFresh1(v ssa.Value, blocks []*ssa.BasicBlock, ws *writeSet, seen map[ssa.Value]bool) bool {
+	if ws != nil && ws.freshVals[v] {
+		return true
+	}
+	if c, ok := v.(*ssa.Const); ok && c.IsNil() {
+		return true // no object at all
+	}
+	if seen[v] {
+		return true
+	}
+	seen[v] = true
+	switch t := v.(type) {
+	case *ssa.Phi:
+		// nil or an object allocated in the region on every edge (a slice that starts nil and
+		// only grows by append inside the loop lives in arrays allocated inside the loop)
+		for _, e := range t.Edges {
+			if !x.regionFresh1(e, blocks, ws, seen) {
+				return false
+			}
+		}
+		return true
+	case *ssa.Call:
+		if b, ok := t.Call.Value.(*ssa.Builtin); ok && b.Name() == "append" {
+			inRegion := false
+			for _, blk := range blocks {
+				if t.Block() == blk {
+					inRegion = true
+				}
+			}
+			if ws != nil {
+				for _, blk := range ws.rootRegion {
+					if t.Block() == blk {
+						inRegion = true
+					}
+				}
+			}
+			return inRegion && x.regionFresh1(t.Call.Args[0], blocks, ws, seen)
+		}
+	}
+	ins, ok := v.(ssa.Instruction)
+	if !ok {
+		return false
+	}
+	in := false
+	for _, b := range blocks {
+		if ins.Block() == b {
+			in = true
+		}
+	}
+	if ws != nil {
+		for _, b := range ws.rootRegion {
+			if ins.Block() == b {
+				in = true
+			}
+		}
+	}
+	if os.Getenv("GVERIF_DEBUG") == "2" {
+		fmt.Fprintf(os.Stderr, "    regionFresh %v in=%v block=%v nroot=%d\n", v, in, ins.Block(), len(ws.rootRegion))
+	}
+	if !in {
+		return false
+	}
+	switch t := v.(type) {
+	case *ssa.MakeMap, *ssa.MakeSlice, *ssa.Alloc:
+		return true
+	case *ssa.Call:
+		if callee := t.Call.StaticCallee(); callee != nil {
+			if con := x.contractFor(callee); con != nil && !con.Inline && freshResult(con) {
+				return true
+			}
+		}
+	}
+	return false
+}
+
+// fnFresh: on every path the value is nil or an object allocated during the current activation of
+// its function (an allocation, a call whose contract promises a fresh result, or a phi of such).
+func (x *Exec) fnFresh(v ssa.Value, seen map[ssa.Value]bool) bool {
+	if seen[v] {
+		return true
+	}
+	seen[v] = true
+	switch t := v.(type) {
+	case *ssa.MakeMap, *ssa.MakeSlice:
+		return true
+	case *ssa.Const:
+		return t.IsNil()
+	case *ssa.Call:
+		if callee := t.Call.StaticCallee(); callee != nil {
+			if con := x.contractFor(callee); con != nil && !con.Inline && freshResult(con) && callee.Signature.Results().Len() == 1 {
+				return true
+			}
+		}
+	case *ssa.Phi:
+		for _, e := range t.Edges {
+			if !x.fnFresh(e, seen) {
+				return false
+			}
+		}
+		return true
+	}
+	return false
+}
+
+// cellHoldsOnly: every value stored into the variable (through the Alloc itself or through the
+// free variables of closures that capture it) satisfies pred; any other use of its address
+// (escapes) makes the answer false.
+func (x *Exec) cellHoldsOnly(al ssa.Value, pred func(ssa.Value) bool) bool {
+	refs := al.Referrers()
+	if refs == nil {
+		return false
+	}
+	for _, r := range *refs {
+		if os.Getenv("GVERIF_DEBUG") == "2" {
+			fmt.Fprintf(os.Stderr, "    referrer of %v: %T %v\n", al, r, r)
+		}
+		switch t := r.(type) {
+		case *ssa.Store:
+			if t.Addr != al {
+				return false // the address itself is stored somewhere
+			}
+			if !pred(t.Val) {
+				return false
+			}
+		case *ssa.UnOp:
+			if t.Op != token.MUL {
+				return false
+			}
+		case *ssa.DebugRef:
+		case *ssa.MakeClosure:
+			fnc, ok := t.Fn.(*ssa.Function)
+			if !ok {
+				return false
+			}
+			for i, b := range t.Bindings {
+				if b == al {
+					if i >= len(fnc.FreeVars) || !x.cellHoldsOnly(fnc.FreeVars[i], pred) {
+						return false
+					}
+				}
+			}
+		default:
+			return false
+		}
+	}
+	return true
+}
+
+// inBlocksFresh: the value is allocated by the body of a closure that captured the variable (the
+// closure is created after the Alloc, which is inside the analysed region).
+func (x *Exec) inBlocksFresh(v ssa.Value, al *ssa.Alloc) bool {
+	ins, ok := v.(ssa.Instruction)
+	if !ok || ins.Parent() == al.Parent() {
+		return false // only inside a closure that captured the variable (it runs after the Alloc)
+	}
+	switch t := v.(type) {
+	case *ssa.MakeMap, *ssa.MakeSlice:
+		return true
+	case *ssa.Call:
+		if callee := t.Call.StaticCallee(); callee != nil {
+			if con := x.contractFor(callee); con != nil && !con.Inline && freshResult(con) {
+				return true
+			}
+		}
+	}
+	return false
+}
+
+// phiTargets: the objects a (phi) value may denote: references fixed before the region (returned
+// as terms) or objects allocated inside the region; ok is false if some source is neither.
+func (x *Exec) phiTargets(v ssa.Value, env map[ssa.Value]Val, region []*ssa.BasicBlock, ws *writeSet, seen map[ssa.Value]bool) ([]string, bool) {
+	if seen[v] {
+		return nil, true
+	}
+	seen[v] = true
+	if ev, ok := env[v]; ok && ev.T != "" {
+		return []string{ev.T}, true
+	}
+	if ph, ok := v.(*ssa.Phi); ok {
+		var refs []string
+		for _, e := range ph.Edges {
+			r, ok := x.phiTargets(e, env, region, ws, seen)
+			if !ok {
+				return nil, false
+			}
+			refs = append(refs, r...)
+		}
+		return refs, true
+	}
+	if x.regionFresh(v, region, ws) {
+		return nil, true
+	}
+	return nil, false
 }
 
 // argForName: the call argument bound to the callee's parameter (or receiver) of that name.
